@@ -259,6 +259,40 @@ pub fn mark(text: &str) {
 pub struct Live {
     pub kv: Option<Bitcask>,
     pub h: Option<Handle>,
+    /// a handle that outlived its store (C17)
+    pub old: Option<Handle>,
+}
+
+fn count_bg_threads() -> usize {
+    let mut n = 0;
+    if let Ok(rd) = std::fs::read_dir("/proc/self/task") {
+        for e in rd.flatten() {
+            if let Ok(c) = std::fs::read_to_string(e.path().join("comm")) {
+                if c.starts_with("bitcask-backgro") {
+                    n += 1;
+                }
+            }
+        }
+    }
+    n
+}
+
+fn count_store_fds(dir: &Path) -> usize {
+    let mut n = 0;
+    if let Ok(rd) = std::fs::read_dir("/proc/self/fd") {
+        for e in rd.flatten() {
+            if let Ok(t) = std::fs::read_link(e.path()) {
+                if t.starts_with(dir) || t.to_string_lossy().contains(&*dir.to_string_lossy()) {
+                    n += 1;
+                }
+            }
+        }
+    }
+    n
+}
+
+fn has_hint(dir: &Path) -> bool {
+    list_dir(dir).keys().any(|n| n.ends_with(".hint"))
 }
 
 pub fn run_case(c: &CaseCfg, ops: &[String], out: &mut dyn Write, scratch: &Path) {
@@ -269,7 +303,7 @@ pub fn run_case(c: &CaseCfg, ops: &[String], out: &mut dyn Write, scratch: &Path
     }
     bitcask::verif::set_clock(1);
     mark(&format!("case {}", c.name));
-    let mut live = Live { kv: None, h: None };
+    let mut live = Live { kv: None, h: None, old: None };
     let opened = std::panic::catch_unwind(|| make_config(c, &dir).open());
     match opened {
         Ok(Ok(kv)) => {
@@ -287,7 +321,7 @@ pub fn run_case(c: &CaseCfg, ops: &[String], out: &mut dyn Write, scratch: &Path
         if cmd != "failat" {
             mark(&format!("op {} {}", opi, cmd));
         }
-        if dead && cmd != "ls" && cmd != "cat" && cmd != "reopen" {
+        if dead && !["ls", "cat", "reopen", "threads", "waitthreads", "fds", "waitfds", "sleep", "oldget", "oldset", "olddel", "oldmerge", "oldsync"].contains(&cmd) {
             writeln!(out, "abandoned").unwrap();
             continue;
         }
@@ -365,6 +399,79 @@ pub fn run_case(c: &CaseCfg, ops: &[String], out: &mut dyn Write, scratch: &Path
                         dead = true;
                         "panic".into()
                     }
+                }
+            }
+            "drop" => {
+                // the owning object goes away, a handle survives
+                live.old = live.h.take();
+                live.kv = None;
+                dead = true;
+                "ok".into()
+            }
+            "oldget" | "oldset" | "olddel" | "oldmerge" | "oldsync" => match live.old.as_ref() {
+                None => "nohandle".into(),
+                Some(h) => {
+                    let h = h.clone();
+                    let k = Bytes::from(unhex(it.next().unwrap_or("-")));
+                    let v = Bytes::from(unhex(it.next().unwrap_or("-")));
+                    let r: Result<String, String> = match cmd {
+                        "oldget" => h.get(k).map(|x| format!("{:?}", x.map(|b| hex(&b)))).map_err(|e| e.to_string()),
+                        "oldset" => h.set(k, v).map(|_| "ok".to_string()).map_err(|e| e.to_string()),
+                        "olddel" => h.del(k).map(|b| b.to_string()).map_err(|e| e.to_string()),
+                        "oldmerge" => h.verif_merge().map(|_| "ok".to_string()).map_err(|e| e.to_string()),
+                        _ => h.verif_sync().map(|_| "ok".to_string()).map_err(|e| e.to_string()),
+                    };
+                    match r {
+                        Ok(x) => format!("ok:{}", x),
+                        Err(e) => format!("err:{}", e),
+                    }
+                }
+            },
+            "threads" => format!("threads {}", count_bg_threads()),
+            "waitthreads" => {
+                // wait until the number of background threads is <n>, at most <ms>
+                let n: usize = it.next().unwrap().parse().unwrap();
+                let ms: u64 = it.next().unwrap().parse().unwrap();
+                let t0 = std::time::Instant::now();
+                loop {
+                    let c = count_bg_threads();
+                    if c == n || t0.elapsed().as_millis() as u64 > ms {
+                        break format!("threads {}", c);
+                    }
+                    std::thread::sleep(std::time::Duration::from_millis(5));
+                }
+            }
+            "fds" => format!("fds {}", count_store_fds(&dir)),
+            "waitfds" => {
+                // wait until at most <n> descriptors on store files are open, at most <ms>
+                let n: usize = it.next().unwrap().parse().unwrap();
+                let ms: u64 = it.next().unwrap().parse().unwrap();
+                let t0 = std::time::Instant::now();
+                loop {
+                    let c = count_store_fds(&dir);
+                    if c <= n || t0.elapsed().as_millis() as u64 > ms {
+                        break format!("fds {}", c);
+                    }
+                    std::thread::sleep(std::time::Duration::from_millis(5));
+                }
+            }
+            "sleep" => {
+                std::thread::sleep(std::time::Duration::from_millis(it.next().unwrap().parse().unwrap()));
+                "ok".into()
+            }
+            "canmerge" => format!("{}", live.h.as_ref().unwrap().verif_can_merge()),
+            "waitmerge" => {
+                // wait for a background merge: a hint file appears
+                let ms: u64 = it.next().unwrap().parse().unwrap();
+                let t0 = std::time::Instant::now();
+                loop {
+                    if has_hint(&dir) {
+                        break format!("merged");
+                    }
+                    if t0.elapsed().as_millis() as u64 > ms {
+                        break "nomerge".to_string();
+                    }
+                    std::thread::sleep(std::time::Duration::from_millis(5));
                 }
             }
             "failat" => {
